@@ -2,7 +2,12 @@
 
 Session style: one case = initial (temporal) dataset + sequence of operations on a
 workspace (list of datasets); both sides dump the whole canonical workspace after every
-operation.  Real side: engines/C11_real.py; model side: Lean driver op `c11.session`
+operation (also after a query and after a refused call).  The real workspace holds the very
+objects the library returned: `sort_by` is applied in place to the workspace object (no
+defensive copy), a value-returning operation may keep its source next to its results
+(`keep`), a twin may be built by the constructor from the same dictionaries (`copy` + `ctor`)
+-- so state shared between a dataset and what was derived from it is part of what is observed;
+in the model objects are values (`applyOp_frame`, `sortBy_frame`, `keep_frame`).  Real side: engines/C11_real.py; model side: Lean driver op `c11.session`
 (lean/Rsa/Drv/C11.lean over lean/Rsa/Core/Dataset.lean); oracle: engines/C11_oracle.py.
 """
 import itertools
@@ -21,7 +26,8 @@ THEOREMS = [P + n for n in (
     'bin_is_mean_of_bin', 'timeAsObs_entry', 'timeAsChan_entry', 'df_roundtrip',
     'average_by_is_group_mean', 'reachable_inv', 'split_channel_partitions', 'split_time_partitions',
     'tensor_entry', 'constructor_check_sound', 'merge_split_columns',
-    'df_classification', 'df_default_class', 'reachable_inv_bin')]
+    'df_classification', 'df_default_class', 'reachable_inv_bin',
+    'applyOp_frame', 'sortBy_frame', 'keep_frame')]
 RULE = ('one case = initial Dataset/TemporalDataset (1-6 observations, sometimes 17-24 for sort '
         'stability; 1-4 channels; 1-4 time points; str/int descriptor columns with duplicate values, '
         'list- or array-typed; optionally a column with missing entries (None in a string column, NaN '
@@ -32,7 +38,10 @@ RULE = ('one case = initial Dataset/TemporalDataset (1-6 observations, sometimes
         'size-1 axes for the conversions, subset_time with bounds on / between / outside the time '
         'points then bin_time with adjacent and interleaved bins, empty selections, DataFrame round '
         'trips of datasets with missing values / float descriptors incl. twice in a row, odd/even '
-        'splits with a single group, merges of parts with different channel counts) are mixed '
+        'splits with a single group, merges of parts with different channel counts; sharing '
+        'histories: siblings derived by every split / subset kind, bin_time, a constructor-built twin, '
+        'the source kept in the workspace or not, then an in-place sort_by of ONE object by an unsorted '
+        'key, then reads of the others and of results derived from them) are mixed '
         'with random sequences; a case is non-trivial when at least one operation was admissible '
         'and changed or queried the workspace; distinct = distinct (initial dataset, operation list)')
 BRANCHES = ['op:split_obs', 'op:split_channel', 'op:split_time', 'op:subset_obs', 'op:subset_channel',
@@ -49,7 +58,13 @@ BRANCHES = ['op:split_obs', 'op:split_channel', 'op:split_time', 'op:subset_obs'
             'df:float-unrepresentable', 'df:integral-float', 'df:float-explicit', 'df:name-clash',
             'missing:gathered', 'oe:rejected-one-group', 'merge:rejected-shape',
             'subset_time:open-bound', 'subset_time:single-point',
-            'df:missing-dataset-desc', 'bin:non-adjacent']
+            'df:missing-dataset-desc', 'bin:non-adjacent',
+            # round 4: state shared between a dataset and its derivations; every object re-read
+            'keep:source', 'sort:in-place-among-others', 'share:split_channel+sort',
+            'share:subset_channel+sort', 'share:split_time+sort', 'share:subset_time+sort',
+            'share:bin_time+sort', 'share:ctor+sort', 'share:read-after-sort', 'share:then-subset_obs',
+            'share:then-time_as_observations', 'share:then-merge', 'share:then-average_by',
+            'frame:reread-after-query', 'frame:reread-after-refusal']
 ASSUMPTIONS = [
     'measurements are small integers, so numpy means agree with exact rational means to 1e-9',
     'descriptor columns are homogeneous (all int, all float, or all str) apart from missing entries, '
@@ -187,6 +202,10 @@ def gen_op(rng, name=None, temporal=True):
     name = name or rng.choice(OPS_FLAT + (OPS_TEMP if temporal else []) +
                               ['split_obs', 'subset_obs', 'sort_by', 'merge', 'merge'])
     op = {'name': name, 'at': rng.randrange(4), 'k': rng.randrange(4)}
+    if name in R.KEEPABLE and rng.random() < 0.3:
+        op['keep'] = True           # the caller keeps the source: results are inserted after it
+    if name == 'copy' and rng.random() < 0.4:
+        op['ctor'] = True           # a second dataset built by the constructor from the same dictionaries
     if name in ('subset_obs', 'subset_channel'):
         r = rng.random()
         if r < 0.45:
@@ -230,6 +249,73 @@ def _df_init(rng, no=None):
     r = rng.random()
     return add_special_columns(rng, init, p_m=1.0 if r < 0.7 else 0.0, p_f=1.0 if r > 0.5 else 0.0,
                                p_w=0.15, p_clash=0.06)
+
+
+SHARE_KINDS = ['split_channel', 'subset_channel', 'split_time', 'subset_time', 'bin_time', 'ctor',
+               'split_obs', 'subset_obs', 'time_as_channels', 'copy']
+
+
+def _unsorted_col(rng, n, kind):
+    """a column with duplicates that is not already in sorted order (n >= 2)"""
+    while True:
+        col = _col(rng, n, kind, 3)
+        if col != sorted(col):
+            return col
+
+
+def _sharing(rng, kind=None):
+    """histories that expose state shared between a dataset and what was derived from it: derive
+    siblings by every split / subset kind (the source kept in the workspace or not), sort ONE of
+    the objects in place by a key that is not already sorted, then read the others -- and results
+    derived from the others (subset_obs, time_as_observations, merge, averages, a DataFrame)"""
+    kind = kind or rng.choice(SHARE_KINDS)
+    temporal = kind in ('split_time', 'subset_time', 'bin_time', 'time_as_channels') or rng.random() < 0.4
+    no = rng.choice([2, 3, 3, 4, 5, 6])
+    nc = rng.choice([2, 3, 4])
+    init = gen_init(rng, temporal, no, nc, nt=(rng.choice([2, 3, 4]) if temporal else None), special=False)
+    init['obs'] = [['c', _unsorted_col(rng, no, rng.choice(['str', 'int']))],
+                   ['r', list(range(no)) if rng.random() < 0.5 else _col(rng, no, 'int', 3)]]
+    init['kinds']['obs:c'] = rng.choice(['list', 'array'])
+    init['kinds']['obs:r'] = rng.choice(['list', 'array'])
+    init['chan'] = [['g', [j % 2 for j in range(nc)]]]          # two channel groups: sibling parts
+    init['kinds']['chan:g'] = rng.choice(['list', 'array'])
+    if temporal:
+        nt = len(init['meas'][0][0])
+        init['time'] = [['time', sorted(rng.sample(range(0, 12), nt))]]
+        init['kinds']['time:time'] = 'array' if rng.random() < 0.75 else 'list'
+        if rng.random() < 0.5:
+            init['time'].append(['ph', [t % 2 for t in range(nt)]])   # two time groups
+            init['kinds']['time:ph'] = rng.choice(['list', 'array'])
+    keep = rng.random() < 0.6
+    if kind == 'ctor':
+        derive = {'name': 'copy', 'at': 0, 'k': 0, 'ctor': True, 'keep': True}
+    elif kind == 'copy':
+        derive = {'name': 'copy', 'at': 0, 'k': 0, 'keep': True}
+    elif kind in ('subset_channel', 'subset_obs'):
+        derive = {'name': kind, 'at': 0, 'k': 0, 'scalar': rng.random() < 0.5,
+                  'vals': [rng.randrange(8) for _ in range(rng.randint(1, 2))], 'keep': True}
+    elif kind == 'subset_time':
+        derive = {'name': kind, 'at': 0, 'k': rng.randrange(2), 'lo': rng.randrange(4), 'hi': rng.randrange(4),
+                  'keep': True}
+    elif kind == 'bin_time':
+        derive = dict(gen_op(rng, 'bin_time'), at=0, k=1, keep=True)      # k=1: 'time' (after 'ph') or the only key
+        derive['k'] = len(init['time']) - 1
+    elif kind == 'time_as_channels':
+        derive = {'name': kind, 'at': 0, 'k': 0, 'keep': True}
+    else:           # split_channel / split_time / split_obs: sibling parts, source kept or not
+        derive = {'name': kind, 'at': 0, 'k': rng.randrange(2), 'keep': keep}
+    ops = [derive]
+    if rng.random() < 0.3:          # a second derivation from one of the objects
+        ops.append(dict(gen_op(rng, rng.choice(['split_channel', 'subset_channel', 'split_time', 'subset_time',
+                                                'copy'])), keep=rng.random() < 0.7))
+    # in-place sort of ONE object by the unsorted key 'c' (k = 0: first key in sorted order)
+    ops.append({'name': 'sort_by', 'at': rng.randrange(4), 'k': 0})
+    # read the others, and results derived from them
+    readers = ['subset_obs', 'merge', 'average_by', 'pick', 'copy', 'split_obs', 'df', 'tensor', 'sort_by',
+               'time_as_observations', 'time_as_observations', 'time_as_channels']
+    for _ in range(rng.randint(1, 3)):
+        ops.append(gen_op(rng, rng.choice(readers)))
+    return init, ops
 
 
 def _directed(rng):
@@ -387,6 +473,10 @@ def _exhaustive(rng):
         {'name': 'time_as_observations', 'k': 0}, {'name': 'time_as_channels'},
         {'name': 'df', 'k': 0}, {'name': 'pick', 'at': 1}, {'name': 'average_by', 'k': 0},
         {'name': 'df_default', 'k': 0},
+        # round 4: value-returning operations whose source stays in the workspace
+        {'name': 'split_channel', 'k': 0, 'keep': True},
+        {'name': 'subset_channel', 'k': 0, 'scalar': True, 'vals': [0], 'keep': True},
+        {'name': 'subset_time', 'k': 0, 'lo': 0, 'hi': 2, 'keep': True},
     ]
     flat = {'temporal': False, 'meas': [[[11], [12]], [[21], [22]], [[31], [32]], [[41], [42]]],
             'desc': [['sub', 1]], 'obs': [['c', ['b', 'a', 'b', 'a']], ['r', [1, 1, 0, 0]],
@@ -424,6 +514,10 @@ def generate(rng, tier):
     for _ in range(n_dir):
         init, ops = _directed(rng)
         yield _norm({'init': init, 'ops': ops})
+    # round 4: shared state between a dataset and what was derived from it (every kind in turn)
+    for n in range(300 if tier == 'quick' else 3000):
+        init, ops = _sharing(rng, SHARE_KINDS[n % len(SHARE_KINDS)])
+        yield _norm({'init': init, 'ops': ops})
     for _ in range(n_rand):
         init, ops = _random_case(rng, maxlen)
         yield _norm({'init': init, 'ops': ops})
@@ -431,7 +525,8 @@ def generate(rng, tier):
 
 def search(rng, tier):
     while True:
-        init, ops = _directed(rng) if rng.random() < 0.5 else _random_case(rng, 8)
+        r = rng.random()
+        init, ops = _directed(rng) if r < 0.4 else _sharing(rng) if r < 0.65 else _random_case(rng, 8)
         yield _norm({'init': init, 'ops': ops})
 
 
@@ -495,7 +590,10 @@ def model_result(case, answers):
             q = out['query']
             out = {'query': {k: (_unnum(v) if k in ('avg', 'tensor') else
                                  [_unlbl(x) for x in v] if k == 'uniq' else v) for k, v in q.items()}}
-        steps.append({'args': _un_args(s['args']), 'out': out})
+        step = {'args': _un_args(s['args']), 'out': out}
+        if 'ws' in s:
+            step['ws'] = [_un_ds(d) for d in s['ws']]
+        steps.append(step)
     return {'init': a['init'] if isinstance(a['init'], str) else _un_ds(a['init']), 'steps': steps}
 
 
@@ -557,10 +655,18 @@ def compare(case, impl, model):
             if oi != om:
                 return f'step {n} ({name}): impl {oi if isinstance(oi, str) else "result"} vs model ' \
                        f'{om if isinstance(om, str) else "result"}'
-            continue
-        d = _diff(oi, om, 'out')
-        if d:
-            return f'step {n} ({name}): {d}  [impl != model]'
+        else:
+            d = _diff(oi, om, 'out')
+            if d:
+                return f'step {n} ({name}): {d}  [impl != model]'
+        # every object of the workspace, re-read after a refused call / a query (after a state
+        # change `out.state` already is the whole workspace)
+        if ('ws' in si) != ('ws' in sm):
+            return f'step {n} ({name}): workspace reported by one side only'
+        if 'ws' in si:
+            d = _diff(si['ws'], sm['ws'], 'ws')
+            if d:
+                return f'step {n} ({name}): workspace after the call: {d}  [impl != model]'
     # model and implementation agree: cross-check both against the independent oracle, so that a
     # model that merely mirrors a property-violating implementation cannot pass silently
     o = O.run(case)
@@ -623,6 +729,7 @@ def features(case, impl):
     steps = impl['steps'] if impl is not None else None
     if steps is not None:
         cur = [impl['init']] if isinstance(impl['init'], dict) else []
+        share = {'pending': set(), 'sorted': False}
         for n, s in enumerate(steps):
             op = case['ops'][n]
             out = s['out']
@@ -630,6 +737,7 @@ def features(case, impl):
             if isinstance(out, dict) and 'state' in out:
                 cur = out['state']
             _round3_branches(br, op, s, before)
+            _round4_branches(br, op, s, before, share)
             if out == 'inadmissible':
                 br.add('out:inadmissible')
                 continue
@@ -679,6 +787,43 @@ def features(case, impl):
                     br.add('sort:temporal-large')
     f['branches'] = sorted(br)
     return f
+
+
+SHARE_DERIVE = ('split_channel', 'subset_channel', 'split_time', 'subset_time', 'bin_time', 'ctor')
+
+
+def _round4_branches(br, op, step, before, share):
+    """coverage tags of the round-4 input class (state shared between a dataset and what was
+    derived from it): a derivation that leaves >= 2 objects in the workspace, then an in-place
+    sort_by that really permutes one object while others are present, then reads of the others"""
+    out, args, name = step['out'], step['args'], op['name']
+    is_state = isinstance(out, dict) and 'state' in out
+    if 'ws' in step:
+        br.add('frame:reread-after-query' if isinstance(out, dict) else 'frame:reread-after-refusal')
+    if share['sorted'] and (is_state or (isinstance(out, dict) and 'query' in out)):
+        br.add('share:read-after-sort')
+        if name in ('subset_obs', 'time_as_observations', 'merge', 'average_by', 'df'):
+            br.add('share:then-' + name)
+    if not is_state:
+        return
+    after = out['state']
+    if name in ('merge', 'pick'):
+        share['pending'].clear()
+        share['sorted'] = False
+        return
+    kept = bool(op.get('keep')) and name in R.KEEPABLE
+    if kept:
+        br.add('keep:source')
+    kind = 'ctor' if (name == 'copy' and op.get('ctor')) else name
+    if kind in SHARE_DERIVE and len(after) >= 2 and (kept or len(after) - len(before) >= 1):
+        share['pending'].add(kind)          # source and result, or sibling parts, are in the workspace
+    if name == 'sort_by' and len(before) >= 2 and isinstance(args, dict):
+        i, by = args['at'], args['by']
+        if before[i]['obs'][by] != after[i]['obs'][by]:         # the sort really permuted the object
+            br.add('sort:in-place-among-others')
+            for k in share['pending']:
+                br.add(f'share:{k}+sort')
+            share['sorted'] = bool(share['pending'])
 
 
 def _round3_branches(br, op, step, before):
